@@ -21,8 +21,25 @@ EXTENDS KvBase
 CONSTANT Bug_UntrimmedPos
 
 IsBlank(c) == c \in {32, 9, 10, 11, 12, 13}
-Lead(q) == IF \E i \in 1..Len(q) : ~IsBlank(q[i]) THEN (CHOOSE i \in 1..Len(q) : ~IsBlank(q[i]) /\ \A j \in 1..(i - 1) : IsBlank(q[j])) - 1 ELSE Len(q)
-LastNB(q) == IF \E i \in 1..Len(q) : ~IsBlank(q[i]) THEN CHOOSE i \in 1..Len(q) : ~IsBlank(q[i]) /\ \A j \in (i + 1)..Len(q) : IsBlank(q[j]) ELSE 0
+\* white space is what Unicode calls so: besides the ASCII blanks the two-byte U+0085 / U+00A0 and the three-byte
+\* U+1680, U+2000..U+200A, U+2028, U+2029, U+202F, U+205F, U+3000 (UTF-8).  Offsets are BYTE offsets throughout.
+At(q, i) == IF i >= 1 /\ i <= Len(q) THEN q[i] ELSE -1
+BlankLenAt(q, i) ==
+  IF IsBlank(At(q, i)) THEN 1
+  ELSE IF At(q, i) = 194 /\ At(q, i + 1) \in {133, 160} THEN 2
+  ELSE IF At(q, i) = 226 /\ At(q, i + 1) = 128 /\ At(q, i + 2) \in (128..138) \cup {168, 169, 175} THEN 3
+  ELSE IF <<At(q, i), At(q, i + 1), At(q, i + 2)>> \in {<<226, 129, 159>>, <<227, 128, 128>>, <<225, 154, 128>>} THEN 3
+  ELSE 0
+RECURSIVE LeadFrom(_, _)
+LeadFrom(q, i) == IF i > Len(q) THEN Len(q) ELSE IF BlankLenAt(q, i) = 0 THEN i - 1 ELSE LeadFrom(q, i + BlankLenAt(q, i))
+Lead(q) == LeadFrom(q, 1)
+RECURSIVE TrailFrom(_, _)
+TrailFrom(q, j) == IF j < 1 THEN 0
+                   ELSE IF BlankLenAt(q, j) = 1 THEN TrailFrom(q, j - 1)
+                   ELSE IF BlankLenAt(q, j - 1) = 2 THEN TrailFrom(q, j - 2)
+                   ELSE IF BlankLenAt(q, j - 2) = 3 THEN TrailFrom(q, j - 3)
+                   ELSE j
+LastNB(q) == TrailFrom(q, Len(q))
 Trimmed(q) == IF LastNB(q) = 0 THEN <<>> ELSE SubSeq(q, Lead(q) + 1, LastNB(q))
 Spaces(n) == [i \in 1..n |-> 32]
 Dots1 == <<46, 46, 46, 32>>      \* "... "
